@@ -1,6 +1,6 @@
 (* C01 correspondence harness: the Python driver writes observed implementation behaviour as [case] terms,
    [chk] evaluates the SAME model definitions the theorems are about (vm_compute). *)
-From Miller Require Import Base.Bytes Base.Record C01.Model.
+From Miller Require Import Base.Bytes Base.Record C01.Model C01.ModelJson C01.ModelXtab C01.ModelLite.
 Open Scope char_scope.
 
 (* compact literals for the generated case files: bytes as a hex string (parses much faster than a list of numbers) *)
@@ -19,8 +19,9 @@ Inductive case :=
 | CWrite (fmt : N) (flags : list bool) (seps : list bytes) (recs : list record) (obs : option bytes)
   (* format, flags, separators, input text, observed records (None = mlr exited non-zero) *)
 | CRead (fmt : N) (flags : list bool) (seps : list bytes) (text : bytes) (obs : option (list record))
-| CUtf8 (s : bytes) (valid : bool)
-| CTsvCodec (s enc dec : bytes).
+| CTsvCodec (s enc dec : bytes)
+  (* writers that align on lib.DisplayWidth: the implementation's widths of the strings involved are part of the case *)
+| CWriteW (fmt : N) (flags : list bool) (seps : list bytes) (widths : list (bytes * N)) (recs : list record) (obs : option bytes).
 
 Definition fl (l : list bool) (i : nat) : bool := nth i l false.
 Definition sp (l : list bytes) (i : nat) : bytes := nth i l [].
@@ -31,13 +32,15 @@ Definition obytes_eqb (a b : option bytes) : bool :=
 Definition orecs_eqb (a b : option (list record)) : bool :=
   match a, b with Some x, Some y => records_eqb x y | None, None => true | _, _ => false end.
 
-(* formats: 0 tsv, 1 dkvp, 2 nidx, 3 csv *)
+(* formats: 0 tsv, 1 dkvp, 2 nidx, 3 csv, 4 json, 5 xtab, 6 csvlite, 7 pprint *)
 Definition model_write (fmt : N) (f : list bool) (s : list bytes) (recs : list record) : option bytes :=
   match fmt with
   | 0%N => write_tsv (fl f 0) (fl f 1) recs
   | 1%N => Some (write_dkvp (sp s 0) (sp s 1) (fl f 0) recs)
   | 2%N => Some (write_nidx (sp s 0) (fl f 0) recs)
   | 3%N => write_csv (fl f 0) (fl f 1) (fl f 2) (comma_of s) recs
+  | 4%N => Some (write_json (fl f 0) (fl f 1) recs)
+  | 6%N => Some (write_csvlite (sp s 0) (fl f 0) (fl f 1) recs)
   | _ => None
   end.
 
@@ -52,14 +55,31 @@ Definition model_read (fmt : N) (f : list bool) (s : list bytes) (text : bytes) 
            | None => None
            | Some _ => Some (read_csv (fl f 0) (fl f 1) (fl f 2) (fl f 3) (comma_of s) text)
            end
+  (* JSON: the RFC-8259 reference covers flat objects with string members; anything else is not compared *)
+  | 4%N => match read_json_ref text with None => None | Some r => Some (Some r) end
+  | 5%N => Some (read_xtab (sp s 0) (fl f 0) text)
+  | 6%N => Some (read_csvlite (sp s 0) (fl f 0) (fl f 1) text)
+  | 7%N => Some (read_pprint (fl f 0) (fl f 1) text)
   | _ => Some None
+  end.
+
+Fixpoint width_of (t : list (bytes * N)) (s : bytes) : nat :=
+  match t with
+  | [] => List.length s
+  | (k, n) :: t' => if beqb k s then N.to_nat n else width_of t' s
+  end.
+Definition model_write_w (fmt : N) (f : list bool) (s : list bytes) (t : list (bytes * N)) (recs : list record) : option bytes :=
+  match fmt with
+  | 5%N => Some (write_xtab (width_of t) (sp s 0) (fl f 0) recs)
+  | 7%N => Some (write_pprint (width_of t) (fl f 0) (fl f 1) recs)
+  | _ => None
   end.
 
 Definition chk (c : case) : bool :=
   match c with
+  | CWriteW fmt f s t recs obs => obytes_eqb (model_write_w fmt f s t recs) obs
   | CWrite fmt f s recs obs => obytes_eqb (model_write fmt f s recs) obs
   | CRead fmt f s text obs => match model_read fmt f s text with None => true | Some m => orecs_eqb m obs end
-  | CUtf8 s v => Bool.eqb (utf8_valid s) v
   | CTsvCodec s e d => beqb (tsv_encode s) e && beqb (tsv_decode s) d
   end.
 
